@@ -824,3 +824,47 @@ def gen_hostile_block(rnd):
         if rnd.random() < 0.5:
             out += [("DUP1", None), (rnd.choice(BIN), None)]
     return out or [("PUSH", "0")]
+
+
+
+def gen_stmt_block(rnd, nin=None):
+    """a block made of stack-neutral statements over memory/storage (for reordering mutants):
+    returns (statements, number of stack inputs)"""
+    nin = nin or rnd.randrange(1, 5)
+    consts = [0, 1, 0x1f, 0x20, 0x21, 0x40, 0x41, 0x60]
+
+    def addr():
+        if rnd.random() < 0.6:
+            return [("PUSH", hexv(rnd.choice(consts)))]
+        k = rnd.randrange(1, nin + 1)
+        if rnd.random() < 0.5:
+            return [("DUP%d" % k, None)]
+        return [("DUP%d" % k, None), ("PUSH", hexv(rnd.choice([1, 0x1f, 0x20, 0x40]))), ("ADD", None)]
+
+    def with_depth(code, extra):
+        # DUPk inside `code` refer to the inputs; shift by the values already pushed by the statement
+        out = []
+        for n, v in code:
+            if n.startswith("DUP"):
+                out.append(("DUP%d" % (int(n[3:]) + extra), None))
+            else:
+                out.append((n, v))
+        return out
+    stmts = []
+    for _ in range(rnd.randrange(2, 6)):
+        r = rnd.random()
+        if r < 0.3:
+            val = [("DUP%d" % rnd.randrange(1, nin + 1), None)] if rnd.random() < 0.6 else [("PUSH", hexv(rnd.randrange(1, 300)))]
+            st = val + with_depth(addr(), 1) + [(rnd.choice(["MSTORE", "MSTORE", "MSTORE8"]), None)]
+        elif r < 0.5:
+            val = [("DUP%d" % rnd.randrange(1, nin + 1), None)] if rnd.random() < 0.6 else [("PUSH", hexv(rnd.randrange(1, 300)))]
+            st = val + with_depth(addr(), 1) + [("SSTORE", None)]
+        elif r < 0.7:
+            st = addr() + [("MLOAD", None)] + with_depth(addr(), 1) + [(rnd.choice(["MSTORE", "SSTORE"]), None)]
+        elif r < 0.85:
+            st = addr() + [("SLOAD", None)] + with_depth(addr(), 1) + [(rnd.choice(["MSTORE", "SSTORE"]), None)]
+        else:
+            st = [("PUSH", hexv(rnd.choice([0x20, 0x40, 0x21])))] + with_depth(addr(), 1) + [("KECCAK256", None)] + \
+                with_depth(addr(), 1) + [(rnd.choice(["MSTORE", "SSTORE"]), None)]
+        stmts.append(st)
+    return stmts, nin
